@@ -150,6 +150,7 @@ structure Cfg where
   readonly : Bool := false
   versioning : Bool := false    -- gateway started with --versioning-dir
   rootAccess : Bytes := []
+  eventFilter : Option (List (String × Bool)) := none   -- --event-filter file (none = every event)
   deriving Repr, DecidableEq, BEq
 
 /-- who sends the request, as established (or not) by SigV4 -/
@@ -159,11 +160,20 @@ inductive Caller where
   | acct (access : Bytes)      -- looked up in `State.accounts`
   deriving Repr, DecidableEq, BEq
 
+/-- a notification record handed to the event sender -/
+structure Event where
+  name : String
+  bucket : Bytes
+  key : Bytes
+  size : Nat := 0
+  etag : Bytes := []
+  deriving Repr, DecidableEq, BEq
+
 /-- canonical response: S3 error code ("" = success) and the observable fields -/
 structure Resp where
   code : String := ""
   fields : List (String × String) := []
-  events : List String := []   -- notifications handed to the event sender
+  events : List Event := []   -- notifications handed to the event sender
   deriving Repr, DecidableEq, BEq
 
 def Resp.ok (r : Resp) : Bool := r.code = ""
